@@ -34,6 +34,14 @@ def must_accept(prop, what, fn, *args, **kwargs):
                         key=f"refused:{what.split('(')[0]}") from e
 
 
+def spelled(omit, defaults, **kwargs):
+    """Keyword arguments as a caller may spell them: when `omit` is set, every argument whose
+    value is the documented default is left out (the default must then mean the same)."""
+    if not omit:
+        return kwargs
+    return {k: v for k, v in kwargs.items() if not (k in defaults and v == defaults[k])}
+
+
 def make_top_with_reset(*components):
     """Like make_top, with an explicit `sync` domain whose reset the harness can pulse."""
     from amaranth import ClockDomain
